@@ -238,7 +238,7 @@ def service_duration(ctx, P, iters):
             cls, fn = view.resolve(m)
             if cls.name == "PSNode" or m in ("release_blocked_individual", "reset_individual_attributes", "__init__"):
                 continue
-            if not any(isinstance(x, ast.Assign) and isinstance(x.targets[0], ast.Attribute) and x.targets[0].attr == "service_end_date" and unparse(x.value) != "False" for x in ast.walk(fn)):
+            if not any(isinstance(x, ast.Assign) and isinstance(x.targets[0], ast.Attribute) and x.targets[0].attr == "service_end_date" and unparse(x.value) not in ("False", "True") for x in ast.walk(fn)):
                 continue
 
             def keep(e):
@@ -252,7 +252,7 @@ def service_duration(ctx, P, iters):
                     continue
                 evs = st.events
                 for i, e in enumerate(evs):
-                    if not (e.kind == "assign" and e.d["target"].endswith(".service_end_date") and e.d["value"] != "False"):
+                    if not (e.kind == "assign" and e.d["target"].endswith(".service_end_date") and e.d["value"] not in ("False", "True")):
                         continue
                     tok = e.d["target"][: -len(".service_end_date")].replace(" ", "")
                     n += 1
